@@ -128,8 +128,13 @@ impl<'a> GeneratorState<'a> {
                 if let ExprType::Immediate(r) = right2 {
                     if v.var_type == VariableType::CharPtr && !*eight_bits && v.var_const {
                         match op {
-                            Operation::Add(_) => return Ok(ExprType::Absolute(variable.clone(), *eight_bits, *off + *r)),
-                            Operation::Sub(_) => return Ok(ExprType::Absolute(variable.clone(), *eight_bits, *off - *r)),
+                            Operation::Add(_) | Operation::Sub(_) => {
+                                let sum = if let Operation::Add(_) = op { off.checked_add(*r) } else { off.checked_sub(*r) };
+                                return match sum {
+                                    Some(o) => Ok(ExprType::Absolute(variable.clone(), *eight_bits, o)),
+                                    None => Err(self.compiler_state.syntax_error("Constant expression overflow", pos)),
+                                };
+                            },
                             Operation::And(_) => if *r == 255 {
                                 if high_byte {
                                     return Ok(ExprType::Immediate(0));
